@@ -5,7 +5,7 @@
    the real sink (coq/extract/Ex_rotate.v extracts these very definitions).
    Quantification: every op list [ops] (Write of any payload / Advance of the wall clock, never
    backwards / Restart / PutForeign), every configuration [c] (any L, any N, all 8 option sets, three
-   timestamp granularities, any base name and suffix), any start time.  Hypothesis [clean c ops]:
+   timestamp granularities, any base name and suffix, any time zone offset within +-24 h), any start time.  Hypothesis [clean c ops]:
    nobody else creates files that follow the sink's own rotated-name scheme (PutForeign names are
    rejected by the sink's recogniser).  The model's wall clock saturates at 9999-12-31. *)
 From Coq Require Import List ZArith Sorted.
@@ -63,7 +63,7 @@ Print Assumptions C06_oracle_holds.
 (* non-vacuity: ten rotations within one timestamp tick (1 s granularity), N = 3: indices 9 -> 10 are
    crossed, the two newest rotated files survive, a look-alike foreign name is rejected *)
 Example C06_nonvacuous :
-  let c := {| cL := 2; cN := 3; startup := false; daily := false; compress := false; cgran := G1s; cbase := [97%N]; csuffix := [108%N] |} in
+  let c := {| cL := 2; cN := 3; startup := false; daily := false; compress := false; cgran := G1s; cbase := [97%N]; csuffix := [108%N]; ctz := 0 |} in
   let w := run src_shape c 1700000000000 (repeat (Write [120%N]) 11) in
   (map fidx (gone w), map fidx (rot w), map rid (act w), parse_name c [120%N; 97%N; 46%N]) = ([1; 2; 3; 4; 5; 6; 7; 8], [9; 10], [10%nat], None).
 Proof. vm_compute. reflexivity. Qed.
